@@ -12,6 +12,7 @@ type entry[K comparable, V Conn] struct {
 	key    K
 	val    V
 	exp    *time.Timer
+	gone   bool // set once the entry has been unlinked from the pool's lists
 	global node[K, V]
 	local  node[K, V]
 }
